@@ -235,7 +235,9 @@ def _map_to_station_ids(
     :return: the price data organized by StationId
     """
     updated = {}  # refactor using immutables.Map()?
-    for k in this_update.keys():
+    # when two keys (a station id and a region, or two regions) address the same station the
+    # last one applied wins, so visit the keys in sorted order rather than in Map (hash) order
+    for k in sorted(this_update.keys()):
         if k in sim.stations:
             # k is a StationId; leave as is
             updated.update({k: this_update[k]})
@@ -250,7 +252,9 @@ def _map_to_station_ids(
                 if res > sim.sim_h3_search_resolution:
                     search_geoids = (h3.h3_to_parent(k, sim.sim_h3_search_resolution),)
                 elif res < sim.sim_h3_search_resolution:
-                    search_geoids = tuple(h3.h3_to_children(k, sim.sim_h3_search_resolution))
+                    search_geoids = tuple(
+                        sorted(h3.h3_to_children(k, sim.sim_h3_search_resolution))
+                    )
 
                 station_ids = (
                     station_id
